@@ -472,7 +472,7 @@ class HTMLConverter(PDFConverter[AnyIO]):
 
     def write(self, text: str) -> None:
         if self.codec:
-            cast(BinaryIO, self.outfp).write(text.encode(self.codec))
+            cast(BinaryIO, self.outfp).write(self._encode(text))
         else:
             cast(TextIO, self.outfp).write(text)
 
@@ -749,7 +749,7 @@ class XMLConverter(PDFConverter[AnyIO]):
 
     def write(self, text: str) -> None:
         if self.codec:
-            cast(BinaryIO, self.outfp).write(text.encode(self.codec))
+            cast(BinaryIO, self.outfp).write(self._encode(text))
         else:
             cast(TextIO, self.outfp).write(text)
 
@@ -930,8 +930,7 @@ class HOCRConverter(PDFConverter[AnyIO]):
 
     def write(self, text: str) -> None:
         if self.codec:
-            encoded_text = text.encode(self.codec)
-            cast(BinaryIO, self.outfp).write(encoded_text)
+            cast(BinaryIO, self.outfp).write(self._encode(text))
         else:
             cast(TextIO, self.outfp).write(text)
 
